@@ -65,7 +65,7 @@ def table_for(gene, sel, depth, seed, noisy, extra_keys, common):
     return {p: dict(v) for p, v in raw.items()}
 
 
-def stage_results(gene, sel, struct, depth, seed, noisy, extra_keys, common, gap, cn_noise):
+def stage_results(gene, sel, struct, depth, seed, noisy, extra_keys, common, gap, cn_noise, novel=()):
     from aldy.profile import Profile
     from aldy.solutions import CNSolution
     from aldy.cn import solve_cn_model
@@ -89,11 +89,19 @@ def stage_results(gene, sel, struct, depth, seed, noisy, extra_keys, common, gap
         out["cn"] = sorted((tuple(sorted(s.solution.elements())), round(s.score, 4)) for s in sols)
     cn = CNSolution(gene, 0, struct)
     raw = table_for(gene, sel, depth, seed, noisy, extra_keys, common)
+    # non-catalogue exonic substitutions (already expressed in this build's terms): one copy's worth of reads each
+    for gp, gop in novel:
+        if gp not in raw and cn.position_cn(gp) > 0:
+            raw[gp] = {gop: [(60, 60)] * depth}
+            if cn.position_cn(gp) > 1:
+                raw[gp]["_"] = [(60, 60)] * (depth * (int(cn.position_cn(gp)) - 1))
     covo = gen_evid.coverage_of(gene, prof, raw)
     majors = estimate_major(gene, covo, cn, "cbc")
     out["major"] = sorted((tuple(sorted(a.major for a in s.solution.elements())), tuple(sorted(rkey(gene, m) for m in s.added)), round(s.score, 4)) for s in majors)
     keyed = sorted(majors, key=lambda s: (tuple(sorted(a.major for a in s.solution.elements())), tuple(sorted(rkey(gene, m) for m in s.added))))
-    minors = estimate_minor(gene, covo, keyed[:2], "cbc") if majors else []
+    minors = estimate_minor(gene, covo, keyed[:2], "cbc", novel=bool(novel)) if majors else []
+    if novel:
+        out["novel-effects"] = [(gene.get_refseq((gp, gop)), gene.get_functional((gp, gop))) for gp, gop in novel]
     out["minor"] = sorted((tuple(sorted((a.major, a.minor, tuple(sorted(rkey(gene, m) for m in a.added)), tuple(sorted(rkey(gene, m) for m in a.missing)))
                                         for a in s.solution)), round(s.score, 6), carried_multiset(gene, s)) for s in minors)
     return out
@@ -173,9 +181,31 @@ def run_table(case):
     fk = sorted(k for k in common if any(rkey(g19, m) == k and g19.mutations[m][0] for m in g19.mutations))
     extra = {fk[j % len(fk)] for j in case["extra"]} if fk else set()
     res = []
-    for g in (g19, g38):
-        res.append(stage_results(g, sel, struct, case["depth"], case["seed"], case["noisy"], extra, common, case["gap"], case["cn_noise"] / 100.0))
+    novel = {"hg19": [], "hg38": []}
+    if case["gene"] == "gen" and case.get("novel"):
+        from lib import truth
+
+        _, meta = gen_db.build(case["db"])
+        cat = {(s_[0], s_[1]) for s_ in meta["sites"]}
+        ex = [i for a_, e_ in meta["exons"] for i in range(a_ - 1, e_ - 1) if i in meta["r2c"]["hg19"] and i in meta["r2c"]["hg38"]]
+        for j, k in case["novel"]:
+            if not ex:
+                break
+            r = ex[j % len(ex)]
+            ref = meta["seq"][r]
+            alt = [c for c in "ACGT" if c != ref][k % 3]
+            if any(p_ == r + 1 for p_, _ in cat):
+                continue
+            for b_, g_ in (("hg19", g19), ("hg38", g38)):
+                novel[b_].append(truth.genome_variant(meta, b_, case["db"]["builds"][b_]["strand"], (r + 1, f"{ref}>{alt}")))
+        if novel["hg19"]:
+            labels.append("non-catalogue-exonic-variant")
+    for b_, g in (("hg19", g19), ("hg38", g38)):
+        res.append(stage_results(g, sel, struct, case["depth"], case["seed"], case["noisy"], extra, common, case["gap"], case["cn_noise"] / 100.0,
+                                 novel=novel[b_]))
     viol = []
+    if res[0].get("novel-effects") != res[1].get("novel-effects"):
+        viol.append(V("inferred-effect-of-non-catalogue-variant-differs-between-builds", hg19=str(res[0].get("novel-effects")), hg38=str(res[1].get("novel-effects"))))
     compare(res[0], res[1], viol, "table")
     differ = g19.strand != g38.strand or g19._yml["reference"]["mappings"]["hg19"][4] != g19._yml["reference"]["mappings"]["hg38"][4]
     nonref = any(gen_evid.carried(g19, a, mn) for a, mn in sel)
@@ -258,12 +288,14 @@ def strategy(tier):
              "depth": st.sampled_from([10, 20]), "noisy": st.booleans(), "extra": st.lists(st.integers(0, 30), max_size=1),
              "gap": st.sampled_from([0, 0.1]), "cn_noise": st.sampled_from([0, 30, 60]), "seed": st.integers(0, 10 ** 6)}
         if g == "gen":
+            d["novel"] = st.sampled_from([0, 1]).flatmap(
+                lambda n: st.lists(st.tuples(st.integers(0, 400), st.integers(0, 2)).map(list), min_size=n, max_size=2 * n))
             d["db"] = st.one_of(gen_db.db_specs(gaps=True, pseudo=True, force_sv=True, small=True, max_sites=6, max_alleles=6, dual_opposite=True,
                                                 kinds=gen_db.KINDS_ALL),
                                 gen_db.db_specs(gaps=True, small=True, max_sites=6, max_alleles=6, kinds=gen_db.KINDS_ALL))
         return st.fixed_dictionaries(d)
 
-    table = st.sampled_from(["gen"] * 10 + small * 1 + ["cyp2d6"]).flatmap(table_for_gene)
+    table = st.sampled_from(["gen"] * 25 + small * 1 + ["cyp2d6"]).flatmap(table_for_gene)
     align = st.fixed_dictionaries({
         "kind": st.just("align"), "db": gen_db.db_specs(dual_opposite=True, gaps=False),
         "hap": st.lists(st.tuples(st.integers(0, 5), st.integers(0, 40)).map(list), min_size=2, max_size=2),
